@@ -255,12 +255,12 @@ pub proof fn lemma_roundtrip_request(dst: u8, me: u8, iid: u8, cmd: u8, params: 
     ensures ({
         let p = packet_spec(dst, me, 0u8, ctrl_hdr_spec(true, false, iid, cmd) + params);
         &&& decode_accepts(p)
-        &&& (req_cmd_known(cmd) <==> !decode_known_panic(p))
+        &&& !decode_known_panic(p)
         &&& c09_claimed(p)
         &&& p[8] & 0x7f == 0
         &&& payload_start(p) == 11
         &&& p.subrange(11, p.len() - 1) =~= params
-        &&& is_answerable(p)
+        &&& is_ctrl_request(p) && (is_answerable(p) <==> cmd_answered(cmd))
         &&& p[9] & 0x1f == iid & 0x1f && p[10] == cmd && p[6] == me && p[5] == dst
     })
 {
@@ -285,10 +285,10 @@ pub proof fn lemma_roundtrip_response(dst: u8, me: u8, iid: u8, cmd: u8, cc: u8,
         &&& hdr_ok(p) && pec_ok(p) && is_ctrl(p) && !is_req(p[9]) && p.len() >= 13 && p[10] == cmd && p[11] == cc
         &&& (cc != 0 ==> !decode_accepts(p) && decode_err(p) == DecErr::Completion(cc) && !decode_known_panic(p))
         &&& (cc == 0 ==> (decode_accepts(p) <==> (resp_len(cmd) > 0 ==> fields.len() == resp_len(cmd))))
-        &&& (cc == 0 ==> (resp_cmd_known(cmd) <==> !decode_known_panic(p)))
+        &&& (cc == 0 ==> !decode_known_panic(p))
         &&& payload_start(p) == 12
         &&& p.subrange(12, p.len() - 1) =~= fields
-        &&& !is_answerable(p)
+        &&& !is_ctrl_request(p) && !is_answerable(p)
     })
 {
     let body = ctrl_hdr_spec(false, false, iid, cmd) + seq![cc] + fields;
@@ -313,10 +313,10 @@ pub proof fn lemma_roundtrip_response_body(dst: u8, me: u8, body: Seq<u8>)
         &&& hdr_ok(p) && pec_ok(p) && is_ctrl(p) && !is_req(p[9]) && p.len() >= 13 && p[10] == cmd && p[11] == cc && p[9] == body[0]
         &&& (cc != 0 ==> !decode_accepts(p) && decode_err(p) == DecErr::Completion(cc) && !decode_known_panic(p))
         &&& (cc == 0 ==> (decode_accepts(p) <==> (resp_len(cmd) > 0 ==> body.len() - 3 == resp_len(cmd))))
-        &&& (cc == 0 ==> (resp_cmd_known(cmd) <==> !decode_known_panic(p)))
+        &&& (cc == 0 ==> !decode_known_panic(p))
         &&& payload_start(p) == 12
         &&& p.subrange(12, p.len() - 1) =~= body.subrange(3, body.len() as int)
-        &&& !is_answerable(p)
+        &&& !is_ctrl_request(p) && !is_answerable(p)
         &&& p[5] == dst && p[6] == me
     })
 {
